@@ -945,11 +945,12 @@ impl FseEncoder {
                 }
                 current_state = new_state;
             } else {
-                println!("FSE encode[{}]: FALLBACK symbol={} ('{}'), state={}", 
-                    encode_count, symbol, symbol as char, current_state);
-                // Fallback: emit symbol directly with escape marker
-                output.push(0xFF); // Escape marker
-                output.push(symbol); // Literal symbol
+                // A symbol without a slot in the table cannot be represented in the stream
+                // (the table may stem from an earlier payload when the encoder is not
+                // adaptive): refuse, rather than emit bytes the decoder does not understand.
+                return Err(ZiporaError::invalid_data(format!(
+                    "Symbol {} not in FSE table", symbol
+                )));
             }
             encode_count += 1;
         }
